@@ -123,6 +123,20 @@ fn exec_maker(n: usize, steps: &[Vec<usize>], draws: usize, threads: usize, obs:
             obs.count("probe.children-never-attempted-after-an-error", (n - entered.min(n)) as u64);
         }
     }
+    // the population handed out at the end is the one observed after the last step
+    let last: Pop = generation.population().clone();
+    let handed_out: Pop = generation.into_population();
+    if handed_out != last {
+        v.push(Violation::new(
+            "population-replaced-by-the-new-children",
+            format!("{which}:into-population-differs"),
+            format!(
+                "into_population() returned serials {:?} but population() showed {:?} after the last step",
+                handed_out.iter().map(|i| i.serial).collect::<Vec<_>>(),
+                last.iter().map(|i| i.serial).collect::<Vec<_>>()
+            ),
+        ));
+    }
     if overlapped {
         obs.hit("probe.two-or-more-makers-overlapped-in-time");
     }
